@@ -36,6 +36,17 @@ def A1(x):
     return np.asarray(x, dtype=float).ravel()
 
 
+def meq(A, B, tol):
+    """tol scalar: relative+absolute closeness; tol array: entrywise |A-B| <= tol (custom PSFs: every weight, also
+    1e-14 and negative ones, must survive — the bound is the rounding of the sum of the contributing weights)"""
+    A, B = np.asarray(A, dtype=float), np.asarray(B, dtype=float)
+    if A.shape != B.shape:
+        return False
+    if isinstance(tol, np.ndarray):
+        return bool(np.all(np.abs(A - B) <= tol))
+    return mclose(A, B, tol)
+
+
 class Script:
     """scripted standard-normal stream: dyadic, non-zero, recorded"""
 
@@ -272,9 +283,12 @@ def gen_psf1(rng, dim):
             half = [rng.randint(0, 4) for _ in range(s // 2)]
             P = half + [rng.randint(1, 5)] + half[::-1]
         else:
-            P = [rng.randint(0, 5) for _ in range(s)]
+            lo = -3 if rng.random() < 0.4 else 0
+            P = [rng.randint(lo, 5) for _ in range(s)]
             if not any(P):
                 P[0] = 1
+        if rng.random() < 0.15:
+            P = [v * rng.choice([1e-14, -1e-14, 0.5, -0.25]) if rng.random() < 0.4 else v for v in P]
         return ("arr", [float(v) for v in P])
     name = rng.choice(["Gauss", "gauss", "Moffat", "Defocus", "defocus"])
     return ("name", name, rng.choice([None, 1.0, 2.5, 0.75]), rng.choice([None, 3, 4, 5]))
@@ -390,21 +404,28 @@ def case_deconv1d(ctx, cuqi, T, B1, B2, cfg, sid):
             B2.add([f"noise {ntype} {q(nstd)} {r1['asm']} {qv(np.ones(dim))}"], lambda o: cb_refused(o))
             return
         A = dense(tp.model.get_matrix())
-        tol = 0.0 if psf[0] == "arr" else 1e-12
+        if psf[0] == "arr":
+            # entrywise rounding bound 4*eps*(sum of |weights| landing on the entry), from scipy called directly on |P|
+            from scipy.ndimage import convolve1d as _c1
+            mode = {"zero": "constant", "periodic": "wrap", "mirror": "mirror", "reflect": "reflect", "nearest": "nearest"}[bc.lower()]
+            Sabs = np.array([_c1(e, np.abs(P), mode=mode) for e in np.eye(dim)])
+            tol, tolT = 4 * np.finfo(float).eps * Sabs, 4 * np.finfo(float).eps * Sabs.T
+        else:
+            tol = tolT = 1e-12
         # --- tie: stored matrix and forward on unit vectors
-        if A.shape != Aasm.shape or not mclose(A, Aasm, 1e-12):
+        if not meq(A, Aasm, tol):
             ctx.disagree("tie:Deconvolution1D:matrix", desc, r0["asm"][:200], str(A.tolist())[:200], "stored matrix")
-            if not mclose(A, Adoc, 1e-12):
+            if not meq(A, Adoc, tolT):
                 ctx.fail("tie:Deconvolution1D:matrix", desc, r0["doc"][:200], str(A.tolist())[:200], "matrix is neither the modelled assembly nor the documented operator")
         with quiet():
             F = np.column_stack([A1(tp.model.forward(e)) for e in np.eye(dim)])
-        if not mclose(F, Aasm, 1e-12):
+        if not meq(F, Aasm, tol):
             ctx.disagree("tie:Deconvolution1D:forward", desc, r0["asm"][:200], str(F.tolist())[:200], "forward on unit vectors")
-            if not mclose(F, Adoc, 1e-12):
+            if not meq(F, Adoc, tolT):
                 ctx.fail("tie:Deconvolution1D:forward", desc, r0["doc"][:200], str(F.tolist())[:200], "forward is not the documented convolution")
         # --- oracle: forward model = documented operator
-        if not mclose(F, Adoc, 1e-12):
-            k = f"{kbase}:transposed:BC={bc.lower()}:{cls}" if mclose(F, Adoc.T, 1e-12) else f"{kbase}:wrong:BC={bc.lower()}:{cls}"
+        if not meq(F, Adoc, tolT):
+            k = f"{kbase}:transposed:BC={bc.lower()}:{cls}" if meq(F, Adoc.T, tol) else f"{kbase}:wrong:BC={bc.lower()}:{cls}"
             ctx.fail(k, desc, r0["doc"][:200], str(F.tolist())[:200], "forward model is not the documented convolution (stated PSF, stated BC)")
             ctx.extra_cov.setdefault("deconv1d_operator", {}).setdefault("differs", 0)
             ctx.extra_cov["deconv1d_operator"]["differs"] += 1
@@ -512,14 +533,19 @@ def case_legacy(ctx, B1, B2, cfg, desc, tp, err, S, x_leaf, sid):
             return
         r = kv(outs[0])
         Aasm, Adoc = fmat(r["asm"], dim), fmat(r["doc"], dim)
-        if not mclose(A, Aasm, 1e-13):
+        tol = np.zeros((dim, dim)) if custom else 1e-13
+        if not meq(A, Aasm, tol):
             ctx.disagree("tie:Deconvolution1D:legacy:matrix", desc, r["asm"][:200], str(A.tolist())[:200])
-            if not mclose(A, Adoc, 1e-13):
+            if not meq(A, Adoc, tol):
                 ctx.fail("tie:Deconvolution1D:legacy:matrix", desc, r["doc"][:200], str(A.tolist())[:200], "legacy matrix is not the documented circulant")
         with quiet():
             F = np.column_stack([A1(tp.model.forward(e)) for e in np.eye(dim)])
-        if not mclose(F, Adoc, 1e-13):
-            k = "transposed" if mclose(F, Adoc.T, 1e-13) else "wrong"
+        if not meq(F, Aasm, tol):
+            ctx.disagree("tie:Deconvolution1D:legacy:forward", desc, r["asm"][:200], str(F.tolist())[:200], "forward on unit vectors")
+            if not meq(F, Adoc, tol):
+                ctx.fail("tie:Deconvolution1D:legacy:forward", desc, r["doc"][:200], str(F.tolist())[:200], "legacy forward is not the documented circulant")
+        if not meq(F, Adoc, tol):
+            k = "transposed" if meq(F, Adoc.T, tol) else "wrong"
             ctx.fail(f"Deconvolution1D:legacy:operator:{k}:{cls}", desc, r["doc"][:200], str(F.tolist())[:200],
                      "legacy forward model is not the periodic convolution with the stated PSF")
         ye = A1(tp.exactData)
@@ -554,8 +580,9 @@ def gen_psf2(rng):
             P = [[qd[min(a, s - 1 - a)][min(b, s - 1 - b)] for b in range(s)] for a in range(s)]
             P[h][h] += 1
         else:
-            P = [[rng.randint(0, 5) for _ in range(s)] for _ in range(s)]
-            P[0][0] += 1
+            lo = -3 if rng.random() < 0.4 else 0
+            P = [[rng.randint(lo, 5) for _ in range(s)] for _ in range(s)]
+            P[0][0] += 1 if P[0][0] >= 0 else -1
         return ("arr", [[float(v) for v in r] for r in P])
     return ("name", rng.choice(["Gauss", "Moffat", "Defocus", "gauss"]), rng.choice([1.0, 2.56, 0.75]), rng.choice([3, 4, 5]))
 
@@ -1188,6 +1215,27 @@ def run(ctx):
     for dopt in (None, ("int", 0), ("float", 0.0), ("arr", [0.0]), ("float", -2.0), ("int", 1), ("arr", [3.5]), ("float", 1e-9)):
         for nstd in (None, 1, 0.01, 4.0):
             case_wang(ctx, cuqi, B1, B2, dict(noise_std=nstd, data=dopt, prior=("gauss-q" if nstd == 4.0 else "none")), nid())
+
+    # ---- signed PSFs (negative, mixed-sign, tiny +-1e-14 next to O(1), zero-sum, all-negative), every BC, odd/even sizes:
+    #      custom PSFs are used as given (no normalisation, no thresholding) — compared entry by entry, exactly in 1-D
+    dog = [float(v) for v in np.round((np.exp(-0.5 * (np.arange(-3, 4) / 1.0) ** 2) - 0.6 * np.exp(-0.5 * (np.arange(-3, 4) / 2.0) ** 2)) * 64) / 64]
+    signed1 = [[-0.05, -0.1, 0.2, 0.9, 0.2, -0.1, -0.05], dog, [1.0, -1.0], [-1.0, 2.0, -1.0], [-1.0, -2.0, -4.0], [-3.0, -1.0, -1.0, -2.0],
+               [1e-14, 1.0, -1e-14], [0.5, -1e-14, 1e-14, 2.0], [1.0, 0.0, -1.0], [2.0, -3.0, 0.0, 1.0]]
+    for k, P in enumerate(signed1):
+        for bc in BC1:
+            case_deconv1d(ctx, cuqi, T, B1, B2, dict(dim=8 if len(P) > 4 else 6, psf=("arr", P), bc=bc,
+                                                    phantom=("arr", [1.0, 3, 0, -2, 5, 1, 2, 4][:8 if len(P) > 4 else 6]),
+                                                    noise_type=("gaussian" if (k + len(bc)) % 2 else "scaledGaussian"), noise_std=0.25, prior=("none", None)), nid())
+    for Pc in ([0.0, 0, -1, 2, -1, 0, 0, 0], [0.0, -0.1, 0.2, 0.9, 0.2, -0.1, 0, 0][::1], [-1.0, 0, 0, 0, 1, 0, 0, 0], [-1.0, -2, -3, 0, 0, 0, 0, 0],
+               [0.0, 0, 0, 1e-14, 1.0, -1e-14, 0, 0], [0.0, 0, 0, -0.5, 1.0, -0.5, 0, 0]):
+        case_deconv1d(ctx, cuqi, T, B1, B2, dict(dim=8, psf=("arr", Pc), bc="periodic", phantom=("arr", [1.0, 3, 0, -2, 5, 1, 2, 4]),
+                                                noise_type="gaussian", noise_std=0.25, prior=("none", None), legacy=True), nid())
+    signed2 = [[[0.0, -1, 0], [-1, 4, -1], [0, -1, 0]], [[1.0, -1], [-1, 1]], [[-1.0, -2], [-3, -4]], [[-0.05, -0.1, 0.2], [0.3, 0.9, -0.2], [0.1, -0.1, -0.05]],
+               [[1e-14, 1.0, 0], [0, 2.0, -1e-14], [0, 0, 0]], [[-2.0]]]
+    for k, P in enumerate(signed2):
+        for bc in BC2:
+            case_deconv2d(ctx, cuqi, T, B1, B2, dict(dim=4, psf=("arr", P), bc=bc, phantom=("arr", [float((3 * i) % 7 - 2) for i in range(16)]),
+                                                    noise_type=("gaussian" if (k + len(bc)) % 2 else "scaledGaussian"), noise_std=0.25, prior=("none", None)), nid())
 
     # ---- generated: Deconvolution1D
     for _ in range(70 * mult):
